@@ -18,7 +18,7 @@ SIG_MASS = 'C04:mass-coupling-term-has-sign-of-u-plus-z-wx'
 COORDS = {k: v for k, v in c02.COORDS.items() if k not in ('preload',)}
 COORDS['lam'] = ['iso', 'general', 'cross_sym', 'uni0']
 COORDS['offset'] = ['0', '+d', '-d']
-COORDS['mu'] = [1500.0, 1.0]
+COORDS['mu'] = [1500.0, 1.0, 2.7e-9]
 
 
 def cases(tier, seed):
@@ -116,7 +116,22 @@ def check_lat(case):
                 if abs(q - mu * h * area) > 1e-11 * mu * h * area:
                     fails.append(fail('rigid unit translation does not carry mass mu*h*area', sig=None, cfg=cfg, dof=k, got=float(q),
                                       expected=float(mu * h * area)))
-    return dict(fails=fails, execs=1, transitions=len(case['lp']), max_ratio=ratio if not fails else 0.0, nontrivial=1 if case['lp'] else 0)
+    execs = 1
+    nb, q = pan.neighbour(lp, COORDS, case['lp'])
+    if nb is not None and cfg['finalize']:
+        cfg_nb = c02.expand(dict(nb, preload=0), case['seed'])
+        cfg_nb['mu'] = nb['mu']
+        p2 = pan.make_panel(cfg_nb)
+        s2 = pan.placement(cfg_nb, (1 if cfg_nb['model'] == 'plate_w' else 3) * cfg_nb['m'] * cfg_nb['n'])
+        p2.calc_k0(silent=True)
+        p2.calc_kM(size=s2[0], row0=s2[1], col0=s2[2], silent=True)
+        pan.retarget(p2, cfg)
+        Kre = pan.dense(p2.calc_kM(size=size, row0=r0, col0=c0, silent=True))
+        execs += 2
+        if pan.worst(Kre, K, S, RTOL)[0] > 1:
+            fails.append(fail('kM of a re-used Panel object whose definition was changed differs from that of a freshly defined panel',
+                              sig=None, cfg=cfg, changed=q))
+    return dict(fails=fails, execs=execs, transitions=len(case['lp']), max_ratio=ratio if not fails else 0.0, nontrivial=1 if case['lp'] else 0)
 
 
 def check_inv(case):
